@@ -40,13 +40,25 @@ def syms(prefix, names, sort="real"):
     return {n: Sym(prefix + n, sort) for n in names}
 
 
+from fractions import Fraction as _Fr
+from values import is_z3 as _is_z3
+TOLQ = z3.RealVal(_Fr(0.001))  # the exact value of the f64 constant 1e-3
+
+
+def tol(x=None):
+    """the code's TOL: exact rational in symbolic mode, the f64 itself natively"""
+    return TOLQ if (x is None or _is_z3(x)) else 0.001
+
+
 def almost_le_bound(lim):
-    """largest value the code's almost_le(x, lim, TOL) accepts (strictly below this)"""
-    return MAX(lim * (1 + TOL), lim + TOL)
+    """the code's almost_le(x, lim, TOL) accepts exactly the x strictly below this"""
+    t = tol(lim)
+    return MAX(lim * (1 + t), lim + t)
 
 
 def almost_ge_bound(lim):
-    return MIN(lim * (1 - TOL), lim - TOL)
+    t = tol(lim)
+    return MIN(lim * (1 - t), lim - t)
 
 
 # ---------------------------------------------------------------- fuel converter
